@@ -1,4 +1,5 @@
 //! C08 — no operation sequence panics or leaves the e-graph inconsistent.
+use crate::analyses::MinSize;
 use crate::engine::*;
 use crate::langs::*;
 use crate::mixed::*;
@@ -75,18 +76,26 @@ fn run(c: &Mixed, obs: &mut Obs) -> Result<(), String> {
 }
 
 fn run_l<L: Language + 'static>(c: &Mixed, obs: &mut Obs) -> Result<(), String> {
+    run_ln::<L, ()>(c, obs, ())
+}
+
+fn run_analysis(c: &Mixed, obs: &mut Obs) -> Result<(), String> {
+    crate::with_lang!(c.lang, L => run_ln::<L, MinSize>(c, obs, MinSize))
+}
+
+fn run_ln<L: Language + 'static, N: Analysis<L> + 'static>(c: &Mixed, obs: &mut Obs, n: N) -> Result<(), String> {
     if let Some(k) = crate::known::route_mixed(c) {
         obs.skip = Some(k);
         return Ok(());
     }
-    let mut eg: EGraph<L> = new_egraph((), c.extraction_subst);
+    let mut eg: EGraph<L, N> = new_egraph(n, c.extraction_subst);
     let pool = rule_pool(c.lang);
     let mut cmp = 0u64;
     let mut slot_dropped = false;
     let mut sym_created = false;
     let mut cascaded = false;
     let mut prev = eg.progress();
-    let st = drive::<L, ()>(c, &mut eg, &mut |eg, st, op| {
+    let st = drive::<L, N>(c, &mut eg, &mut |eg, st, op| {
         cmp += invariants(eg, &st.handles)?;
         let pr = eg.progress();
         if pr.number_of_classes == prev.number_of_classes && pr.number_of_live_classes == prev.number_of_live_classes {
@@ -171,6 +180,21 @@ pub fn property(tier: Tier) -> Property {
             panic_is_violation: true,
             render: |c: &Mixed| c.render(),
             rule: "operation sequences (add, add_syn, union by recipes, apply_rewrites with rules from the language's pool; ematch_all and extraction as read-only probes); non-trivial = at least 3 effective unions or a rewrite iteration that changed the e-graph; distinct by rendered sequence",
+            case_timeout_s: tier.pick(120, 600),
+            exhaustive: false,
+        }));
+    }
+    for (name, l) in [("ops-core-analysis", LangId::Core), ("ops-lambda-analysis", LangId::Lambda), ("ops-arith-analysis", LangId::Arith)] {
+        let mut cfg = MixedCfg::for_lang(l);
+        cfg.max_ops = tier.pick(10, 16);
+        let n = if l == LangId::Core { tier.pick(1500, 30_000) } else { tier.pick(500, 8_000) };
+        stages.push(Box::new(Stage {
+            name,
+            source: random(move || mixed_strategy(cfg.clone()), n),
+            run: run_analysis,
+            panic_is_violation: true,
+            render: |c: &Mixed| c.render(),
+            rule: "the same operation sequences on an e-graph that carries an analysis (smallest term size), so that analysis-only re-processing of e-nodes is interleaved with structural re-processing; same invariants; non-trivial as above",
             case_timeout_s: tier.pick(120, 600),
             exhaustive: false,
         }));
